@@ -87,6 +87,10 @@ CLAIMED = {
             "the returned goal likewise; assemble() restores the initial free q's and reports the initial goal when the optimizer made the goal worse; q's of the internal State are written only by tabled functions, optimizer callbacks only through setInternalStateFromFreeQs, which writes free indices only, and the free-index map excludes every prescribed / locked q; "
             "limits reach the optimizer system in (lower, upper) order; every infinite-weight condition with error terms is evaluated into consecutive slots of the vector whose max-abs / RMS is the tested norm. "
             "Optimizer convergence, 'the goal reaches zero for achievable targets', ObservedPointFitter and LocalEnergyMinimizer are numerical / have no result test in the code and are NOT decided."),
+    "C15": ("SUM (loop coverage b = 1 .. getNumBodies()-1, zero-initialised accumulators added to exactly once on every iteration path, per-body quantities selected by the loop variable, mass-weighted normalisation discipline) on the seven system aggregates; SWEEP (level / node coverage and order of the kinetic-energy and composite-body-inertia sweeps, child index pairing); DELEGATE",
+            "Static decision of the coverage / accumulation clauses of C15 (DESIGN section 3): that the system aggregates ARE sums over the individual bodies -- each of the seven calculators loops over every mobilized body but Ground exactly once, adds each body's contribution to zero-initialised accumulators on every iteration path, takes the contribution from getMobilizedBody(b) of the loop variable, and normalises a mass-weighted average by the very mass it summed (under mass != 0); "
+            "kinetic energy covers every node of every non-Ground level; composite-body inertias are swept outermost level first over all nodes, each node adding every child's composite inertia shifted by that same child's phi. "
+            "The per-body formulas (parallel-axis shifts, re-expression, station velocities, momentum about the mass centre) are numerical and NOT decided."),
 }
 NA = {
  "C01": "numerical identity between O(n) recursions; no clause is visible in the shape of the code",
@@ -98,7 +102,6 @@ NA = {
  "C11": "conservation along trajectories is a global numerical consequence",
  "C12": "power/energy gradient consistency is numerical (symbolic differentiation excluded)",
  "C14": "per-body Newton-Euler balance is numerical",
- "C15": "sums with parallel-axis shifts are numerical",
  "C20": "global error vs tolerance is numerical analysis",
  "C25": "element-wise value semantics of index arithmetic; no shape rule decides it",
  "C27": "orthonormality and round trips are numerical",
